@@ -664,3 +664,87 @@ func g20AliasInjective(c *Ctx) {
 	}
 	c.Rep.analysed("fallback_alias_paths", len(paths))
 }
+
+// g21ReserveEveryCalledName — "names the user calls elsewhere are never taken": (*finder).Visit must put the name of every
+// called identifier that is defined in the user's own files into funcNames (the reserved set), whatever kind of object it
+// denotes (function, function-typed variable, type used as a conversion). Between the lookup of the callee and the insertion
+// the only paths that leave early are: callee undefined (recorded as a call to generate), builtin, no file position, defined in
+// derived.gen.go. Any other early exit (e.g. "not a *types.Func") lets newName hand out a name the user calls.
+func g21ReserveEveryCalledName(r *Repo, rep *Report) {
+	visit := r.lookup("derive.(*finder).Visit")
+	if visit == nil {
+		rep.fail(Finding{Rule: "G21", Key: "G21|reserve|missing", Kind: "undecided", Msg: "(*finder).Visit not found"})
+		return
+	}
+	body := visit.Decl.Body.List
+	// position of the funcNames insertion (top-level statement)
+	insert := -1
+	for i, st := range body {
+		if as, ok := st.(*ast.AssignStmt); ok && len(as.Lhs) == 1 {
+			if ix, ok := as.Lhs[0].(*ast.IndexExpr); ok {
+				if sel, ok := ix.X.(*ast.SelectorExpr); ok && sel.Sel.Name == "funcNames" {
+					insert = i
+				}
+			}
+		}
+	}
+	if insert < 0 {
+		rep.fail(Finding{Rule: "G21", Key: "G21|reserve|no-insert", Where: []string{r.pos(visit.Decl.Pos())},
+			Msg: "(*finder).Visit no longer records the names of called functions as a top-level step (funcNames[name] = …): fresh helper names may take names the user calls"})
+		return
+	}
+	n := 0
+	for _, st := range body[:insert] {
+		ifs, ok := st.(*ast.IfStmt)
+		if !ok || !nodeHas(ifs.Body, func(k ast.Node) bool { _, ok := k.(*ast.ReturnStmt); return ok }) {
+			continue
+		}
+		n++
+		cond := exprStr(ifs.Cond)
+		init := ""
+		if ifs.Init != nil {
+			if as, ok := ifs.Init.(*ast.AssignStmt); ok && len(as.Rhs) == 1 {
+				init = exprStr(as.Rhs[0])
+			}
+		}
+		allowed := false
+		switch {
+		case cond == "!ok": // failed assertion/lookup defined by the statement just before: node is no call, callee no identifier, callee undefined
+			allowed = true
+		case strings.HasSuffix(init, ".(*types.Builtin)") && cond == "ok":
+			allowed = true
+		case strings.HasSuffix(cond, "== nil"): // no file for the position
+			allowed = true
+		case strings.Contains(cond, "derivedFilename"):
+			allowed = true
+		}
+		if !allowed {
+			rep.fail(Finding{Rule: "G21", Key: "G21|reserve|early-exit", Where: []string{r.pos(ifs.Pos())},
+				Msg: fmt.Sprintf("(*finder).Visit leaves before reserving the callee's name when `%s %s`: identifiers the user calls that are not covered by this test's complement (function-typed variables, types used as conversions) are not reserved, so a fresh helper name can collide with them", init, cond)})
+		} else {
+			rep.pass("G21")
+		}
+	}
+	// `!ok` exits must belong to the three known lookups (call, identifier, Uses): a fourth one is a new filter
+	nOK := 0
+	for i, st := range body[:insert] {
+		ifs, ok := st.(*ast.IfStmt)
+		if !ok || exprStr(ifs.Cond) != "!ok" || i == 0 {
+			continue
+		}
+		nOK++
+		prev, _ := body[i-1].(*ast.AssignStmt)
+		src := ""
+		if prev != nil && len(prev.Rhs) == 1 {
+			src = exprStr(prev.Rhs[0])
+		}
+		if !(strings.HasSuffix(src, ".(*ast.CallExpr)") || strings.HasSuffix(src, ".(*ast.Ident)") || strings.Contains(src, ".Uses[")) {
+			rep.fail(Finding{Rule: "G21", Key: "G21|reserve|early-exit", Where: []string{r.pos(ifs.Pos())},
+				Msg: fmt.Sprintf("(*finder).Visit leaves before reserving the callee's name when `%s` fails: called identifiers of other kinds (function-typed variables, types used as conversions) are not reserved, so a fresh helper name can collide with a name the user calls", src)})
+		}
+	}
+	rep.analysed("visit_early_exits", n)
+	if n < 4 {
+		rep.fail(Finding{Rule: "G21", Key: "G21|reserve|floor", Kind: "undecided", Where: []string{r.pos(visit.Decl.Pos())}, Msg: "fewer early exits in (*finder).Visit than confirmed by hand"})
+	}
+}
